@@ -1,5 +1,35 @@
-(* STUB: Spec layer for mcfg -- to be written *)
-From Coq Require Import NArith List.
-From ACPI Require Import Lib.Bytes Lib.Sx Spec.Layout.
+(* Spec layer for the MCFG (PCI Firmware Specification 3.x, table 4-2/4-3), written from SPEC_NOTES.md A.2:
+   36+8 reserved; entries from 44, 16 bytes: 0+8 Base, 8+2 Segment, 10 StartBus, 11 EndBus, 12+4 reserved.
+   Case vocabulary (shared with the harness, component 11):
+     ctor  (oem6 tbl8 orev)                        MCFG::new(oem_id, oem_table_id, oem_revision)
+     ops   (1 base segment start_bus end_bus)      add_ecam(base_addr: u64, segment: u16, start_bus: u8, end_bus: u8)  -> event n0 *)
+From Coq Require Import NArith List Bool.
+From ACPI Require Import Lib.Bytes Lib.Sx Spec.Layout Spec.MadtS.
 Import ListNotations.
-Definition mcfg_spec : tspec := null_spec.
+Open Scope N_scope.
+
+Definition mcfg_entry_ref (o : sx) : option (list N) :=
+  match o with
+  | SL [SA 1; SA base; SA seg; SA sb; SA eb] => lay 16 [L 0 8 base; L 8 2 seg; L 10 1 sb; L 11 1 eb; L 12 4 0]
+  | _ => None
+  end.
+
+Definition mcfg_entries_ref (ops : list sx) : option (list (list N)) := opt_concat (map mcfg_entry_ref ops).
+
+Definition mcfg_image (ctor : sx) (ops : list sx) : option (list N) :=
+  match ctor with
+  | SL [o; t; r] =>
+      match sx_hdr_args o t r, mcfg_entries_ref ops with
+      | Some h, Some es => Some (ref_table [77; 67; 70; 71] 1 h (le 8 0 ++ concat es))      (* "MCFG", revision 1 (crate) *)
+      | _, _ => None
+      end
+  | _ => None
+  end.
+
+Definition mcfg_spec : tspec := {|
+  ts_image := mcfg_image;
+  ts_walk := Some (44%nat, H_fixed 16);
+  ts_entries := fun _ ops => option_map (map (fun e => (0, length e))) (mcfg_entries_ref ops);
+  ts_counts := fun _ => [];
+  ts_returns := fun _ => false
+|}.
